@@ -21,7 +21,7 @@ BOUNDS = {
     "branch_rules": "7 patterns x 36 branch names incl. non-ASCII (multi-byte characters straddling every prefix length), signed, overflowing and zero-padded segments; first-match lookup, resolve_for_branch and flag-over-rule precedence on 5 rule sets x 9 branches x 6 flag sets (every subset of label / number / mode flags that matters)",
     "bump_levels": "default precedence order; 3x3x3x2x2x2 variable assignments x 7 levels x override {None,0,7} x bump {None,0,2}; u64::MAX overflow probe; reset_lower_precedence_components under 4 precedence orders (default, reversed, shuffled, partial) x 8 levels",
     "presets_tier": "6 smart presets x dirty {None,false,true} x distance {None,0,3} x pre x post x epoch; the 16 fixed presets against their documented component lists (also exercises every constructor's unwrap); the 8 CalVer presets rendered for 3 (commit time, tag time) pairs against the UTC date",
-    "timestamp": "16 documented patterns x 7 instants (1970..2199) against chrono called directly",
+    "timestamp": "16 documented patterns x 7 instants (1970..2199) against chrono called directly; and every 3rd day (thorough: every day) from 1970-01-01 to 2199-12-31 at its first and last second, all 16 patterns with their widths, against a calendar algorithm that shares nothing with chrono (days -> civil date; Monday-based week from day of year and weekday)",
     "schema_validate": "~5000 schemas from a pool of 13 components (lists up to length 2 per section, plus all orders of major/minor/patch with and without literals in between)",
     "semver_parts": "5 SemVer and 5 PEP 440 sample versions",
     "pep440_display": "5 SemVer and 5 PEP 440 sample versions",
